@@ -54,7 +54,7 @@ FlatInls(is, ctx) == ConcatAll([k \in DOMAIN is |-> FlatInl(is[k], ctx)])
 
 FlatBlock(b, ctx) ==
     CASE b[1] = "p"   -> Hard \o FlatInls(b[2], ctx) \o Hard
-      [] b[1] = "h"   -> Hard \o FlatInls(b[3], Enter(ctx, "HEAD")) \o Hard
+      [] b[1] = "h"   -> Hard \o FlatInls(b[3], Enter(Mark(ctx, IF b[2] = 1 THEN "L1" ELSE IF b[2] = 2 THEN "L2" ELSE "L3"), "HEAD")) \o Hard
       [] b[1] = "ul"  -> ConcatAll([k \in DOMAIN b[2] |->
                             Hard \o FlatBlocks(b[2][k],
                                       Enter(IF "ul" \in ctx.marks THEN Mark(ctx, "ul.nested") ELSE Mark(ctx, "ul"),
@@ -211,11 +211,26 @@ PagedUnits(d, fmt, us, dev) ==
     LET keep == IF "Rtf!EmptyPageDropped" \in dev /\ fmt = "rtf"
                 THEN SelectSeq([k \in DOMAIN d.units |-> k],
                                LAMBDA k : \E a \in Range(Tokens(FlatUnitBody(d.units[k]))) : Req(fmt, a[3]) = "MUST")
-                ELSE [k \in DOMAIN d.units |-> k]
+                \* a source position that is not a unit of this kind (EPUB spine item that is no chapter: an SVG page,
+                \* a dangling idref) yields no unit but still counts as a position
+                ELSE SelectSeq([k \in DOMAIN d.units |-> k], LAMBDA k : d.units[k].gap = 0)
     IN /\ Len(us) = Len(keep)                                        \* one unit per page / slide / sheet / chapter
        /\ \A k \in DOMAIN us :
             /\ us[k].n = (IF "Rtf!EmptyPageDropped" \in dev /\ fmt = "rtf" THEN k ELSE keep[k])   \* 1-based source position
             /\ Fidelity(FlatUnit(d.units[keep[k]]), fmt, us[k].obs, us[k].sep, us[k].residue, dev)
+
+\* The heading path of a section unit is the chain of open headings: heading i is an ancestor of heading j iff it
+\* precedes j and every heading after i up to and including j has a deeper level (one token per heading here).
+LevelOf(a) == IF "L1" \in a[4] THEN 1 ELSE IF "L2" \in a[4] THEN 2 ELSE 3
+HeadPathOK(toks, heads) ==
+    \/ heads = <<>>
+    \/ LET hs == SelectSeq(toks, LAMBDA a : a[3] = "HEAD")
+           last == heads[Len(heads)]
+       IN \E j \in DOMAIN hs :
+            /\ hs[j][2] = last
+            /\ LET anc == SelectSeq([i \in 1..j |-> i],
+                                    LAMBDA i : i = j \/ \A m \in (i + 1)..j : LevelOf(hs[m]) > LevelOf(hs[i]))
+               IN heads = [i \in DOMAIN anc |-> hs[anc[i]][2]]
 
 \* Flowing-text formats: one unit or one per heading section; together they cover the body exactly.
 \* Heading tokens may live in the heading path, cell tokens in the unit's tables.
@@ -255,6 +270,7 @@ FlowUnits(d, fmt, us, dev) ==
               order  == SelectSeq([j \in DOMAIN toks |-> toks[j][2]], LAMBDA i : i \in strict /\ Count(all, i) > 0)
           IN FirstOcc(SelectSeq(all, LAMBDA i : i \in strict), {}) = order               \* source order across units
        /\ \A k \in DOMAIN us : \A w \in DOMAIN us[k].residue : AllowedResidue(fmt, us[k].residue[w], dev)
+       /\ \A k \in DOMAIN us : HeadPathOK(toks, us[k].heads)
 
 Units(d, fmt, us, full, joinok, dev) ==
     /\ IF fmt \in PagedFormats /\ ~(fmt = "rtf" /\ Len(d.units) = 1)
